@@ -269,7 +269,7 @@ def compare_case(ops, obs, pid=PID, base=frozenset()):
                 f2 = dict(forced)
                 f2[at] = combo
                 r2 = lockstep(ops, obs, f2, upto=mm.i, pid=pid, base=base)
-                if r2.mismatch is None and (r2.stopped is None or r2.stopped.startswith('undecided') or r2.stopped.startswith('diverged')):
+                if r2.mismatch is None and r2.stopped is None:      # outcome, result, invariants AND dump of the operation agree on this path
                     forced = f2
                     for q in sorted(combo if len(combo) <= len(qs) else frozenset(qs)):
                         viol.append(('%s:deviation:%s' % (pid, q), 'real library deviates from the DOM text in the way described by quirk "%s" (op %d: %s)' % (q, mm.i, mm.op.render()),
@@ -493,6 +493,24 @@ def gen_specials(table=None):
 # ---------------------------------------------------------------------------------------------------
 #  one shard (runs in a worker process)
 # ---------------------------------------------------------------------------------------------------
+def crash_key(rep):
+    """<tool>:<kind>:<innermost library function>, stable across runs: no addresses, and for memory errors no sanitizer error kind
+    (where a stray write lands decides between stack-buffer-overflow / stack-use-after-scope / SEGV)"""
+    import re as _re
+    inner = next((f for f in rep.frames if f[1]), None)
+    fn = inner[0] if inner else None
+    if not fn or fn == '?':
+        m = _re.search(r'xercesc_4_0::([A-Za-z0-9_]+::[A-Za-z0-9_~]+)', rep.text or '')
+        fn = m.group(1) if m else '?'
+    if rep.tool == 'ubsan':
+        kind = rep.kind.split(' of ')[0]
+        kind = _re.sub(r'[^A-Za-z ]+', '', kind).strip().replace(' ', '-')[:40]
+        return 'ubsan:%s:%s' % (kind, fn)
+    if rep.tool in ('asan', 'signal'):
+        return 'memory-error:%s' % fn
+    return '%s:%s:%s' % (rep.tool, rep.kind, fn)
+
+
 def safe_run_shard(binary, cases, **kw):
     """core.run_shard, but a batch whose FIRST case never finishes (core raises 'driver made no progress') costs that case only"""
     out = {}
@@ -561,8 +579,14 @@ def run_shard(args):
     suspects = []
 
     def crash_entry(c, r):
-        out['crashes'].append((c.to_json(), None if r is None else (r.crash.key() if r.crash else ('hang' if r.hang else 'incomplete')),
-                               None if r is None or not r.crash else r.crash.text[:6000], [] if r is None else r.lines[-3:]))
+        key = None
+        if r is not None:
+            key = 'incomplete'
+            if r.hang and not r.crash:
+                key = 'hang'
+            elif r.crash:
+                key = crash_key(r.crash)
+        out['crashes'].append((c.to_json(), key, None if r is None or not r.crash else r.crash.text[:6000], [] if r is None else r.lines[-3:]))
 
     for c in cases:
         r = recs.get(c.id)
@@ -684,7 +708,7 @@ def shrink(binary, case_json, key, max_rounds=14, pid=PID, base=frozenset()):
             if r is None:
                 continue
             if not r.complete or r.crash:
-                k2 = [r.crash.key()] if (r.crash is not None) else []
+                k2 = ['%s:%s' % (pid, crash_key(r.crash))] if (r.crash is not None) else []
             else:
                 obs, xl = parse_obs(r.lines)
                 try:
@@ -714,7 +738,7 @@ TIERS = {
     'micro': dict(nrandom=96, nops=200, depth=0, chk=4),         # first 6 scripts of each shard
     'mini': dict(nrandom=320, nops=200, depth=0, chk=4),        # subset of quick (same shards, first 20 scripts each): sensitivity runs
     'quick': dict(nrandom=2000, nops=200, depth=2, chk=4),
-    'thorough': dict(nrandom=8000, nops=1000, depth=3, chk=10),
+    'thorough': dict(nrandom=4000, nops=1000, depth=3, chk=10),
 }
 
 
@@ -780,17 +804,7 @@ def _run(ck, cfg, tier, binary, opts=None):
             elif key == 'hang':
                 ck.violation('%s:hang:%s' % (pid, c.meta.get('class', '')), 'script did not terminate within the watchdog', {'case': cj})
             else:
-                # memory errors: the sanitizer's error kind depends on where the stray access lands; key on the function
-                parts = key.split(':')
-                if parts[0] == 'ubsan' and len(parts) >= 3:
-                    import re as _re
-                    kind = parts[1].split(' of ')[0]
-                    kind = _re.sub(r'[^A-Za-z ]+', '', kind).strip().replace(' ', '-')[:40]
-                    key = '%s:ubsan:%s:%s' % (pid, kind, ':'.join(parts[2:]))
-                elif parts[0] in ('asan', 'signal') and len(parts) >= 3:
-                    key = '%s:memory-error:%s' % (pid, ':'.join(parts[2:]))
-                else:
-                    key = '%s:%s' % (pid, key)
+                key = '%s:%s' % (pid, key)
                 ck.violation(key, 'sanitizer/crash report while executing a DOM script', {'case': cj, 'report': text, 'last_lines': tail})
         for key, what, w in r['violations']:
             ck.violation(key, what, w)
